@@ -223,7 +223,9 @@ def _bounds_cases(shard, nshards):
 @st.composite
 def _bounds_random(draw, hi):
     r, c = draw(G.shapes(1, hi))
-    co = lambda n: st.integers(-3, n + 2)  # noqa: E731
+    # near the grid, and far outside it at values that alias an in-grid coordinate modulo a power of two (narrow integer storage)
+    far = lambda n: st.builds(lambda k, m, sg: sg * m + k, st.integers(0, n - 1), st.sampled_from([128, 256, 512, 1024, 65536, 2**31, 2**32]), st.sampled_from([1, -1]))  # noqa: E731
+    co = lambda n: st.one_of(st.integers(-3, n + 2), st.integers(-3, n + 2), far(n), st.sampled_from([127, 128, 255, -128, -129, -255, -256, 32767, 32768]))  # noqa: E731
     return {"r": r, "c": c, "s": [draw(co(r)), draw(co(c))], "e": [draw(co(r)), draw(co(c))],
             "kind": draw(st.sampled_from(["targeted", "solved"])), "via": draw(st.sampled_from(["ctor", "from_lattice_maze"]))}
 
